@@ -162,6 +162,43 @@ unsafe impl<C: Sync> Sync for BatchControllerSystem<'_, '_, C> {}
 ///
 /// To be useful, pass the controller to the constructor of [`MultiDispatcher`]
 /// and register with [`add_batch`][crate::DispatcherBuilder::add_batch].
+/// Verification hook: the real batch wrapper system around an already built
+/// inner dispatcher (forwards to `BatchControllerSystem::create`).
+#[cfg(feature = "verif-hooks")]
+#[allow(missing_docs)]
+pub struct VerifBatchSystem<'a, 'b, C>(BatchControllerSystem<'a, 'b, C>);
+
+#[cfg(feature = "verif-hooks")]
+#[allow(missing_docs)]
+impl<'a, 'b, C> VerifBatchSystem<'a, 'b, C>
+where
+    C: for<'c> BatchController<'a, 'b, 'c> + Send + 'a,
+    'b: 'a,
+{
+    pub fn new(accessor: BatchAccessor, controller: C, dispatcher: Dispatcher<'a, 'b>) -> Self {
+        VerifBatchSystem(unsafe {
+            BatchControllerSystem::<'a, 'b, C>::create(accessor, controller, dispatcher)
+        })
+    }
+
+    pub fn reads(&self) -> Vec<ResourceId> {
+        System::accessor(&self.0).reads()
+    }
+
+    pub fn writes(&self) -> Vec<ResourceId> {
+        System::accessor(&self.0).writes()
+    }
+
+    pub fn running_time(&self) -> RunningTime {
+        System::running_time(&self.0)
+    }
+
+    /// The wrapper as the boxed executable the dispatcher stores.
+    pub fn into_exec(self) -> crate::dispatch::dispatcher::SystemExecSend<'a> {
+        Box::new(self.0)
+    }
+}
+
 pub trait MultiDispatchController<'a>: Send {
     /// What data it needs to decide on how many times the subsystems should be
     /// run.
